@@ -188,18 +188,18 @@ Fixpoint check_matrix2 {A} (f : A -> A -> bool * bool -> option string) (la lb :
          (copyerr msg) (samecopy bits) (heqcopy bits)).
     Failures of the operation itself (error, panic) and purely structural audit problems belong
     to other properties; wrong tables are reported here whatever the audit says. *)
-Definition judge_edit (c o : sexp) : verdict :=
+Definition judge_edit_gen (etag : string) (c o : sexp) : verdict :=
   match get_string "panic" o with
-  | Some _ => VOk false "edit:panic"
+  | Some _ => VOk false (etag ++ ":panic")
   | None =>
     match get_string "operr" o, get_tree "tree" o with
     | Some operr, Some g =>
-      if negb (String.eqb operr "") then VOk false "edit:operr" else
-      if negb (wf g && Nat.leb 2 (degree g) && distinct_sorted (ssort (leaves g))) then VOk false "edit:degenerate"
+      if negb (String.eqb operr "") then VOk false (etag ++ ":operr") else
+      if negb (wf g && Nat.leb 2 (degree g) && distinct_sorted (ssort (leaves g))) then VOk false (etag ++ ":degenerate")
       else match get_string "err" o with
            | None => VBad "no tables in edit observation"
            | Some gerr =>
-             match judge_tables "edit" g gerr o with
+             match judge_tables etag g gerr o with
              | VOk nt tag =>
                match get_string "copyerr" o, get_bits "samecopy" o, get_bits "heqcopy" o with
                | Some ce, Some sc, Some hc =>
@@ -215,7 +215,7 @@ Definition judge_edit (c o : sexp) : verdict :=
                             else if negb (Bool.eqb (N.eqb (hash_code (snd a)) (hash_code (snd b))) (snd x)) then Some "HashCode equality result/copy"
                             else None) k k (zip_bits sc hc) with
                    | Some m => VCorr m
-                   | None => match audit_ok o with Some _ => VOk false "edit:audit" | None => VOk nt tag end
+                   | None => match audit_ok o with Some _ => VOk false (etag ++ ":audit") | None => VOk nt tag end
                    end
                  end
                | Some ce, _, _ => VCorr ("independent copy of the result: " ++ ce)
@@ -227,6 +227,12 @@ Definition judge_edit (c o : sexp) : verdict :=
     | _, _ => VBad "undecodable edit observation"
     end
   end.
+
+Definition judge_edit (c o : sexp) : verdict := judge_edit_gen "edit" c o.
+(** handbuilt: a tree assembled with NewNode/ConnectNodes in arbitrary directions, oriented by
+    Reroot(root) / SetRoot(n)+Reroot(n) / RerootFirst, then ReinitIndexes: same observation, judged
+    against the dumped structure (orientation is not data in the model) *)
+Definition judge_handbuilt (c o : sexp) : verdict := judge_edit_gen "handbuilt" c o.
 
 Definition find_code (r : res bool) : string :=
   match r with Ok true => "T" | Ok false => "F" | Err _ => "E" end.
@@ -411,6 +417,55 @@ Definition judge_map {K} (tag : string) (khash : K -> N) (keqb kspec : K -> K ->
 
 Fixpoint number {A} (k : nat) (l : list A) : list (nat * A) :=
   match l with [] => [] | x :: r => (k, x) :: number (S k) r end.
+
+(** parmap: several goroutines on ONE shared HashMap, every key owned by one goroutine: the
+    results of each goroutine and the final content are those of the plain association list run
+    on the concatenation of the goroutines' operations, whatever the interleaving.
+    case ((kind parmap) (cap n) (lf q) (reps r) (keys ((hash class) ...)) (gops ((op ...) ...)))
+    obs  ((reps (((res ...) (kvs ...)) ...)))  -- res: goroutine after goroutine *)
+Definition judge_parmap_rep (keys : list akey) (kops : list (akey * option Z)) (o : sexp) : option string :=
+  match get_string "panic" o with
+  | Some p => Some ("the shared map panics: " ++ p)
+  | None =>
+    match (x <- get "res" o ;; dec_list dec_gres_Z x), (x <- get "kvs" o ;; dec_list (dec_pair dec_Z dec_Z) x) with
+    | Some grs, Some gkvs0 =>
+      let '(srs, sf) := srun akey akey_eqb [] kops in
+      match omap (fun p => if (fst p <? 0)%Z then None else k <- nth_error keys (Z.to_nat (fst p)) ;; Some (k, snd p)) gkvs0 with
+      | None => Some "KeyValues() holds an empty or unknown entry"
+      | Some gfinal =>
+        if negb (list_eqb gres_Z_eqb srs grs) then Some "concurrent writers: a lookup of a key put by the same goroutine differs from the plain map"
+        else if negb (same_map akey akey_eqb sf gfinal) then
+          Some ("concurrent writers: the final content is not one entry per key with its last value ("
+                ++ string_of_nat (length gfinal) ++ " entries for " ++ string_of_nat (length sf) ++ " keys)")
+        else None
+      end
+    | _, _ => Some "undecodable repetition"
+    end
+  end.
+
+Definition judge_parmap (c o : sexp) : verdict :=
+  match (x <- get "keys" c ;; dec_list (dec_pair dec_N dec_nat) x),
+        (x <- get "gops" c ;; dec_list (dec_list dec_aop) x), get_string "panic" o with
+  | _, _, Some p => VOracle ("the shared map panics: " ++ p)
+  | Some ks, Some gops, None =>
+    let keys : list akey := map (fun p => (fst p, fst (snd p), snd (snd p))) (number 0 ks) in
+    match omap (fun a => match a with
+                         | APut k v => k' <- nth_error keys k ;; Some (k', Some v)
+                         | AVal k => k' <- nth_error keys k ;; Some (k', None)
+                         end) (concat gops) with
+    | None => VBad "key index out of range"
+    | Some kops =>
+      match (x <- get "reps" o ;; list_of x) with
+      | None => VBad "no repetitions"
+      | Some reps =>
+        match first_some (map (judge_parmap_rep keys kops) reps) with
+        | Some m => VOracle m
+        | None => VOk true "parmap"
+        end
+      end
+    end
+  | _, _, _ => VBad "undecodable parmap case"
+  end.
 
 Definition judge_hashmap (c o : sexp) : verdict :=
   match (x <- get "keys" c ;; dec_list (dec_pair dec_N dec_nat) x) with
@@ -637,6 +692,8 @@ Definition judge (c o : sexp) : verdict :=
   | Some k =>
     if String.eqb k "index" then judge_index c o
     else if String.eqb k "edit" then judge_edit c o
+    else if String.eqb k "handbuilt" then judge_handbuilt c o
+    else if String.eqb k "parmap" then judge_parmap c o
     else if String.eqb k "samebip" then judge_samebip c o
     else if String.eqb k "edgeindex" then judge_edgeindex c o
     else if String.eqb k "hashmap" then judge_hashmap c o
